@@ -159,6 +159,13 @@ def run(res, replay=None):
                     stats = json.loads(line[6:])
                 elif line.startswith("OPS "):
                     ops = json.loads(line[4:])
+                elif line.startswith("CLASS "):
+                    cls = json.loads(line[6:])
+                    total["theorem_class"] = cls
+                    if cls["messages_outside"]:
+                        res.violation("check machinery: generated programs fall outside the class the C03/C10 theorems "
+                                      "quantify over (wf_message/wf_mux/wf_defaults/wf_header): %s" % cls["outside"][:5],
+                                      {"outside": cls["outside"]}, no_input=True)
                 elif line.startswith("MISMATCH ") or line.startswith("PFAIL "):
                     kind, _, rest = line.partition(" ")
                     obs, _, detail = rest.partition(" || ")
@@ -194,6 +201,7 @@ def run(res, replay=None):
             "physical_setter_ops": total["physical_setter_ops"],
             "physical_setter_ops_replayed_exactly_with_the_flocq_model": total["physical_setter_ops_exact"],
             "programs": len(progs),
+            "messages_satisfying_the_hypotheses_of_the_theorems": total.get("theorem_class", {}).get("messages_satisfying_theorem_hypotheses"),
             "program_distribution": {
                 "messages": sum(s["messages"] for s in summ), "signals": sum(s["signals"] for s in summ),
                 "widths_covered": sorted({w for s in summ for w in s["widths"]}),
